@@ -88,6 +88,20 @@ def rule_block_number(report, prog):
             report.check(okk, 'C12-R2', key(f.qname, 'toggle only after the received block number matched', node.ast), f.loc(node.ast),
                          'the block number is toggled without checking the block number of the response', fmt(cfg, p))
     report.floor('C12-R2', n, 3)
+    # the block whose number was checked is the block that is classified and consumed: between the passed check and the toggle the
+    # received block is not replaced (a check placed before the S(WTX) loop tests the WTX request, not the answer that follows it)
+    from ..q import assign_nodes
+    rebinds = [a for a in assign_nodes(cfg, 'data') if a.kind == 'stmt' and isinstance(a.ast, ast.Assign) and 'self.clf.exchange(' in norm(a.ast.value)]
+    for t, lab in edges:
+        after = cfg.reachable(t, avoid_edges=[(t, 'true')])
+        for node in cfg.nodes:
+            if node.kind == 'stmt' and isinstance(node.ast, ast.Assign) and norm(node.ast.targets[0]) == 'self.pni' and node in after:
+                # a re-bind of data on a path check -> toggle that does not pass the check again
+                bad = [a for a in rebinds if a in after and node in cfg.reachable(a, avoid_nodes=[x for x, _ in edges])]
+                report.check(not bad, 'C12-R2', key(f.qname, 'no new block is received between the block number check and the toggle', t.ast, node.ast),
+                             f.loc(bad[0].ast) if bad else f.loc(node.ast),
+                             'a block received by `%s` is accepted without its own block number check (the check ran on the previous block)'
+                             % (norm(bad[0].ast) if bad else ''))
     for t, lab in edges:
         okk = isinstance(t.owner, ast.If) and any(isinstance(x, ast.Raise) and 'PROTOCOL_ERROR' in norm(x) for x in t.owner.body)
         report.check(okk, 'C12-R2', key(f.qname, 'wrong block number raises PROTOCOL_ERROR', t.ast), f.loc(t.ast),
@@ -107,6 +121,19 @@ def rule_block_number(report, prog):
         any(isinstance(l, ast.While) and norm(l.test) == 'bool(data[0] & 16)' for l in walk_no_nested(f.node))
     report.check(okk, 'C12-R2', key(f.qname, 'chained response blocks appended in order while the chaining bit is set'), f.loc(),
                  'response reassembly changed')
+
+
+def rule_once(report, prog):
+    """R6: one APDU is handed to the ISO-DEP layer exactly once: no second transceive() / exchange() of the same command above the
+    block protocol (the card would execute a state changing APDU twice); recovery belongs to the R-block retransmission rules."""
+    for q, callee in (('nfc.tag.tt4.Type4Tag.send_apdu', 'self.transceive'), ('nfc.tag.tt4.Type4Tag.transceive', 'self._dep.exchange')):
+        f = prog.func(q)
+        cs = [c for c in walk_no_nested(f.node) if isinstance(c, ast.Call) and norm(c.func) == callee]
+        in_loop = [c for c in cs if any(isinstance(a, (ast.For, ast.While)) for a in ancestors(c))]
+        in_handler = [c for c in cs if any(isinstance(a, ast.ExceptHandler) for a in ancestors(c))]
+        report.check(len(cs) == 1 and not in_loop and not in_handler, 'C12-R6', key(q, 'the command is issued exactly once', callee), f.loc(cs[-1]) if cs else f.loc(),
+                     '%s calls %s %d times (%d in a loop, %d in an exception handler): an APDU can be executed twice by the card'
+                     % (q, callee, len(cs), len(in_loop), len(in_handler)))
 
 
 def _handler_map(t):
@@ -244,6 +271,7 @@ def run(report, prog, tier):
     rule_error_mapping(report, prog, res)
     rule_bounded(report, prog)
     rule_empty(report, prog)
+    rule_once(report, prog)
     report.trusted += ['ISO/IEC 14443-4 block formats (PCB values), FSCI table', 'clf.exchange raises only CommunicationError subclasses or IOError (C13)']
     report.assumptions += ['the card model (at-most-once execution) is out of reach of a static rule']
 
@@ -321,4 +349,30 @@ MUTANTS = [
             raise Type4TagCommandError(nfc.tag.PROTOCOL_ERROR)""", """        if not apdu or len(apdu) < 2:
             raise RuntimeError("short apdu")""", 'C12-R3'),
     ('response-prepended', T4, "            response = response + data[1:]", "            response = data[1:] + response", 'C12-R2'),
+    ('apdu-reissued-after-receive-error', T4, """        apdu = self.transceive(apdu)
+
+        if not apdu or len(apdu) < 2:""", """        try:
+            rsp = self.transceive(apdu)
+        except Type4TagCommandError as error:
+            if error.errno != nfc.tag.RECEIVE_ERROR:
+                raise
+            rsp = self.transceive(apdu)
+        apdu = rsp
+
+        if not apdu or len(apdu) < 2:""", 'C12-R6'),
+    ('block-number-check-before-wtx', T4, """            while data[0] & 0b11111110 == 0b11110010:  # WTX
+                log.debug("ISO-DEP waiting time extension")
+                data = self.clf.exchange(data, (data[1] & 0x3F) * self.fwt)
+
+            if data[0] & 0x01 != self.pni:
+                log.warning("ISO-DEP protocol error: block number")
+                raise Type4TagCommandError(nfc.tag.PROTOCOL_ERROR)
+""", """            if data[0] & 0x01 != self.pni:
+                log.warning("ISO-DEP protocol error: block number")
+                raise Type4TagCommandError(nfc.tag.PROTOCOL_ERROR)
+
+            while data[0] & 0b11111110 == 0b11110010:  # WTX
+                log.debug("ISO-DEP waiting time extension")
+                data = self.clf.exchange(data, (data[1] & 0x3F) * self.fwt)
+""", 'C12-R2'),
 ]
